@@ -1599,7 +1599,11 @@ class _rrulestr(object):
                 raise ValueError("invalid '%s': %s" % (name, value))
         if "freq" not in rrkwargs:
             raise ValueError("missing FREQ")
-        return rrule(dtstart=dtstart, cache=cache, **rrkwargs)
+        try:
+            return rrule(dtstart=dtstart, cache=cache, **rrkwargs)
+        except OverflowError:
+            # e.g. BYHOUR=99999999999999999999
+            raise ValueError("value out of range")
 
     def _parse_date(self, datestr, ignoretz, tzinfos):
         try:
